@@ -41,6 +41,11 @@ RefKept(p, e) ==
 \* the digest over all resourceVersions in the store is the one recorded at the end of the previous reconcile
 Quiescent(e) == (e.ev = "end" /\ e.steady) => e.post.digest = e.prevDigest
 
+\* the persisted reference array is a function of the SET of desired resources (vectors of MCRefOrder.tla: the real
+\* UpdateResourceRefs 24 times on the same set - it ranges over a Go map): always the same sequence, holding exactly the set
+RefsStable(e) == e.ev = "refsvec" => \A i \in DOMAIN e.runs : e.runs[i] = e.runs[1]
+RefsComplete(e) == e.ev = "refsvec" => \A i \in DOMAIN e.runs : (Range(e.runs[i]) = Range(e.input) /\ Len(e.runs[i]) = Len(e.input))
+
 \* ---- C03
 Wrote(e) == e.ev = "call" /\ e.applied /\ ~e.noop
 \* after the observation or the pipeline failed, the reconcile creates / updates / deletes no composed resource
@@ -79,6 +84,8 @@ Check(i) ==
   /\ (AtMostOne(e) \/ Viol("AtMostOne", i))
   /\ (Quiescent(e) \/ Viol("Quiescent", i))
   /\ (Tie(e) \/ Viol("Tie", i))
+  /\ (RefsStable(e) \/ Viol("Refs.Stable", i))
+  /\ (RefsComplete(e) \/ Viol("Refs.Complete", i))
   /\ (ObservedComplete(e) \/ Viol("Observed.Complete", i))
   /\ (FailSafeWrites(e) \/ Viol("FailSafe.Writes", i))
   /\ (GcDeletesAllUndesired(e) \/ Viol("GcExact.Missed", i))
